@@ -61,6 +61,15 @@ func verifDir() string {
 	return "/verif"
 }
 
+// outDir: where evidence and replay files go (VERIF_OUT_DIR redirects them, used when a check is run
+// against a seeded change so that the committed evidence is not overwritten).
+func outDir(vd string) string {
+	if d := os.Getenv("VERIF_OUT_DIR"); d != "" {
+		return d
+	}
+	return vd
+}
+
 func loadKnown(prop string) []engine.KnownRegion {
 	var all struct {
 		Findings []engine.KnownRegion `json:"findings"`
@@ -341,7 +350,7 @@ func cmdCheck(args []string) int {
 	for _, w := range ws {
 		w.Trace = nil
 	}
-	runDir := filepath.Join(vd, "replays", id, fmt.Sprintf("run-%d", os.Getpid()))
+	runDir := filepath.Join(outDir(vd), "replays", id, fmt.Sprintf("run-%d", os.Getpid()))
 	repeat := spec.Repeat
 	if repeat == 0 {
 		repeat = 1
@@ -376,7 +385,7 @@ func cmdCheck(args []string) int {
 					if !violPrinted[key] {
 						violPrinted[key] = true
 						violations++
-						path := filepath.Join(vd, "replays", id, fmt.Sprintf("%s-%d.json", w.Harness, violations))
+						path := filepath.Join(outDir(vd), "replays", id, fmt.Sprintf("%s-%d.json", w.Harness, violations))
 						b, _ := json.MarshalIndent(w, "", " ")
 						os.MkdirAll(filepath.Dir(path), 0o755)
 						os.WriteFile(path, b, 0o644)
@@ -424,7 +433,7 @@ func cmdCheck(args []string) int {
 					if !violPrinted[key] {
 						violPrinted[key] = true
 						violations++
-						path := filepath.Join(vd, "replays", id, fmt.Sprintf("%s-%d.json", w.Harness, violations))
+						path := filepath.Join(outDir(vd), "replays", id, fmt.Sprintf("%s-%d.json", w.Harness, violations))
 						b, _ := json.MarshalIndent(w, "", " ")
 						os.MkdirAll(filepath.Dir(path), 0o755)
 						os.WriteFile(path, b, 0o644)
@@ -528,8 +537,8 @@ func cmdCheck(args []string) int {
 		"violations":  violations,
 	}
 	eb, _ := json.MarshalIndent(ev, "", " ")
-	os.MkdirAll(filepath.Join(vd, "evidence"), 0o755)
-	os.WriteFile(filepath.Join(vd, "evidence", id+".json"), eb, 0o644)
+	os.MkdirAll(filepath.Join(outDir(vd), "evidence"), 0o755)
+	os.WriteFile(filepath.Join(outDir(vd), "evidence", id+".json"), eb, 0o644)
 	fmt.Printf("property=%s tier=%s paths=%d obligations=%d discharged=%d violations=%d known=%d validated_natively=%d wall=%.1fs\n",
 		id, *tier, total.Paths, total.Obligations, total.Discharged, violations, len(knownPrinted), validated, time.Since(t0).Seconds())
 	if violations > 0 {
@@ -572,7 +581,7 @@ func cmdReplay(args []string) int {
 			}
 		}
 	}
-	runDir := filepath.Join(vd, "replays", "single", fmt.Sprintf("run-%d", os.Getpid()))
+	runDir := filepath.Join(outDir(vd), "replays", "single", fmt.Sprintf("run-%d", os.Getpid()))
 	defer os.RemoveAll(runDir)
 	outs, raw, err := nativeReplay(*repo, runDir, harnesses, []*engine.Witness{&w}, 50)
 	if err != nil {
